@@ -119,13 +119,14 @@ class Scripted:
     """One scripted SFTP server session"""
 
     def __init__(self, process, version=3, exts=(), files=None, hold=(READ, WRITE),
-                 ranges_per_reply=128, hold_all=False):
+                 ranges_per_reply=128, hold_all=False, natural=None):
         self.p = process
         self.version = version
         self.exts = list(exts)
         self.files = files if files is not None else {}
         self.hold = set(hold)
         self.hold_all = hold_all
+        self.natural = natural          # _Plan: answer on own clock
         self.ranges_per_reply = ranges_per_reply
         self.handles = {}
         self.nh = 0
@@ -235,7 +236,10 @@ class Scripted:
                 data = cur.str()
                 length = len(data)
             req = Held(rid, ptype, self.handles.get(h), off, length, data)
-            if ptype in self.hold:
+            if self.natural is not None:
+                self.held.append(req)
+                asyncio.ensure_future(self._natural_answer(req))
+            elif ptype in self.hold:
                 self.held.append(req)
             else:
                 self.answer(req, 'auto')
@@ -284,6 +288,25 @@ class Scripted:
                 self.status(rid, FX_OP_UNSUPPORTED, 'unsupported')
         else:
             self.status(rid, FX_OP_UNSUPPORTED, 'unsupported')
+
+    async def _natural_answer(self, req):
+        """Answer one READ / WRITE from its own task after a seeded delay"""
+        p = self.natural
+        await asyncio.sleep(p.delay())
+        if req not in self.held or self.closed:
+            return
+        if p.fail():
+            self.answer(req, 'err')
+        elif req.kind == READ:
+            f = self.files.get(req.path)
+            avail = max(0, min(req.length, len(f.content) - req.off)) \
+                if f is not None else 0
+            if avail:
+                self.answer(req, 'data', n=min(avail, p.short(req.length)))
+            else:
+                self.answer(req, 'eof')
+        else:
+            self.answer(req, 'ok')
 
     # ---- answering held READ / WRITE ----
     def find(self, kind, off):
@@ -845,3 +868,546 @@ def behaviours_from_sim(d, prefix='tr_'):
     for _name, steps in tlc.read_sim_traces(d, prefix):
         out.append(split_behaviour([(st['lbl'], st) for _, st in steps]))
     return out
+
+
+# ======================================================================
+# CODE -> SPEC: executions recorded from naturally scheduled transfers
+# (validated by TLC against specs/SftpIO/SftpIOTrace.tla)
+# ======================================================================
+
+class _AsyncioProxy:
+    """Stands in for the `asyncio` name inside asyncssh.sftp while a
+    transfer is recorded: everything is the real asyncio, except that the
+    return of wait() (the batch of finished block tasks that
+    _SFTPParallelIO.iter is about to consume) is reported to the recorder."""
+
+    def __init__(self, on_batch):
+        self._on_batch = on_batch
+
+    def __getattr__(self, name):
+        return getattr(asyncio, name)
+
+    async def wait(self, fs, *, timeout=None,
+                   return_when=asyncio.ALL_COMPLETED):
+        done, pending = await asyncio.wait(fs, timeout=timeout,
+                                           return_when=return_when)
+        self._on_batch(len(done))
+        return done, pending
+
+
+class Recorder:
+    """Turns the linearization points of one API call into the events of
+    SftpIOTrace: request issued (handler.read/write called), answer consumed
+    (that call returned / raised inside the block task), batch consumed
+    (asyncio.wait returned in iter)."""
+
+    def __init__(self, c, U):
+        self.c, self.U = c, U
+        self.direct = c['op'] in ('read', 'write') and c['size'] <= c['B']
+        self.fresh_ph = 'wr' if c['op'] in ('write', 'put') else 'rd'
+        self.ev = []
+        self.final = []             # answers of tasks that are finished now
+        self.anchor = None          # the start / batch step new requests belong to
+        self.problems = []
+        self.err_injected = False
+        self.nreq = 0
+        self.max_out = 0
+        self.outstanding = 0
+        self.ext = set()
+        self.data_end = max([0] + [(o + n) * U for o, n in
+                                   runs(set(c['data']), c['A'])])
+
+    def _u(self, v, what):
+        if v % self.U:
+            self.problems.append(f'{what} {v} is not a multiple of the unit '
+                                 f'{self.U}')
+        return v // self.U
+
+    def start(self):
+        self.anchor = {'e': 'start', 'new': [], 'done': False}
+        self.ev.append(self.anchor)
+
+    def req(self, ph, off, ln, data=None):
+        if self.c['sparse'] and ph == 'wr' and off >= self.data_end and \
+                data is not None and not any(data) and \
+                self.c['op'] in ('put', 'copy'):
+            self.ext.add(off)       # the destination is extended over the
+            return                  # trailing hole (not a block request)
+        self.nreq += 1
+        self.outstanding += 1
+        self.max_out = max(self.max_out, self.outstanding)
+        if ph == self.fresh_ph:
+            if self.anchor is None:
+                self.problems.append('request before the call started')
+                return
+            self.anchor['new'].append([self._u(off, 'offset'),
+                                       self._u(ln, 'length')])
+
+    def ans(self, ph, off, ln, k, n):
+        if off in self.ext and ph == 'wr':
+            return
+        self.outstanding -= 1
+        if k == 'err':
+            self.err_injected = True
+        x = {'off': self._u(off, 'offset'), 'ph': ph,
+             'size': self._u(ln, 'length'), 'k': k, 'n': self._u(n, 'count')}
+        if self.direct:
+            self.anchor = {'e': 'ans', 'a': [x], 'new': [], 'done': False}
+            self.ev.append(self.anchor)
+        elif self.c['op'] == 'copy' and ph == 'rd' and k in ('data', 'eof'):
+            # the task goes on to write what it read: not finished
+            self.ev.append({'e': 'ans', 'a': [x], 'new': [], 'done': False})
+        else:
+            self.final.append(x)
+
+    def batch(self, ndone):
+        if ndone != len(self.final):
+            self.problems.append(f'asyncio.wait returned {ndone} finished '
+                                 f'tasks, {len(self.final)} final answers '
+                                 f'were logged')
+        self.anchor = {'e': 'ans', 'a': self.final, 'new': [], 'done': False}
+        self.final = []
+        self.ev.append(self.anchor)
+
+    def end(self, raised, ids):
+        if self.final:
+            self.problems.append(f'{len(self.final)} answers were consumed '
+                                 f'by no batch')
+        steps = [e for e in self.ev if e['e'] in ('start', 'ans')]
+        if steps:
+            steps[-1]['done'] = True
+        self.ev.append({'e': 'end', 'raised': raised, 'data': ids})
+
+    def instrument(self, handler):
+        oread, owrite = handler.read, handler.write
+        rec = self
+
+        async def read(handle, offset, length):
+            rec.req('rd', offset, length)
+            try:
+                data, at_end = await oread(handle, offset, length)
+            except asyncio.CancelledError:
+                raise
+            except asyncssh.SFTPEOFError:
+                rec.ans('rd', offset, length, 'eof', 0)
+                raise
+            except (asyncssh.SFTPError, OSError):
+                rec.ans('rd', offset, length, 'err', 0)
+                raise
+            rec.ans('rd', offset, length, 'data', len(data))
+            return data, at_end
+
+        async def write(handle, offset, data):
+            rec.req('wr', offset, len(data), data)
+            try:
+                r = await owrite(handle, offset, data)
+            except asyncio.CancelledError:
+                raise
+            except (asyncssh.SFTPError, OSError):
+                rec.ans('wr', offset, len(data), 'err', 0)
+                raise
+            rec.ans('wr', offset, len(data), 'ok', len(data))
+            return r
+
+        handler.read, handler.write = read, write
+
+
+def ids_of(data, U, table):
+    """bytes -> byte ids of the model (0 = zero unit, 9999 = foreign)"""
+    out = []
+    for i in range(0, len(data), U):
+        ch = bytes(data[i:i + U])
+        out.append(0 if not any(ch) and len(ch) == U
+                   else table.get(ch, 9999))
+    return out
+
+
+class _Plan:
+    """Seeded behaviour of a natural server"""
+
+    def __init__(self, rng, U, p_err, p_short, delays):
+        self.rng, self.U = rng, U
+        self.p_err, self.p_short, self.delays = p_err, p_short, delays
+        self.announced = None
+
+    def delay(self):
+        return self.rng.choice(self.delays)
+
+    def fail(self):
+        return self.rng.random() < self.p_err
+
+    def short(self, size):
+        """bytes to serve for a request of `size` bytes"""
+        units = max(1, size // self.U)
+        if units > 1 and self.rng.random() < self.p_short:
+            return self.rng.randint(1, units - 1) * self.U
+        return size
+
+
+class NaturalServer(asyncssh.SFTPServer):
+    """A real SFTPServer (real files in a chroot) that answers on its own
+    clock: seeded delays, short reads, occasional errors; EOF where the
+    file ends; the announced size of 'src' may exceed its length."""
+
+    root = None
+    plan = None
+
+    def __init__(self, chan):
+        super().__init__(chan, chroot=NaturalServer.root)
+
+    async def read(self, file_obj, offset, size):
+        p = NaturalServer.plan
+        await asyncio.sleep(p.delay())
+        if p.fail():
+            raise OSError(5, 'injected I/O error')
+        return super().read(file_obj, offset, p.short(size))
+
+    async def write(self, file_obj, offset, data):
+        p = NaturalServer.plan
+        await asyncio.sleep(p.delay())
+        if p.fail():
+            raise OSError(5, 'injected I/O error')
+        return super().write(file_obj, offset, data)
+
+    def _announce(self, path, r):
+        p = NaturalServer.plan
+        if p.announced is not None and os.path.basename(path) == b'src':
+            a = asyncssh.SFTPAttrs.from_local(r)
+            a.size = p.announced
+            return a
+        return r
+
+    def lstat(self, path):
+        return self._announce(path, super().lstat(path))
+
+    def stat(self, path):
+        return self._announce(path, super().stat(path))
+
+
+class NaturalWorld:
+    """Loop + real asyncssh server with the real SFTP server side + client"""
+
+    _key = None
+
+    def __init__(self):
+        if NaturalWorld._key is None:
+            NaturalWorld._key = asyncssh.generate_private_key('ssh-ed25519')
+        os.makedirs(tlc.WORK, exist_ok=True)
+        self.root = tempfile.mkdtemp(prefix='C12nat', dir=tlc.WORK)
+        NaturalServer.root = self.root.encode()
+        self.loop = new_loop()
+        self.loop.run_until_complete(self._start())
+        self.loop.run_until_idle()
+        self.ct, self.st = self.loop.net.all_transports[-2:]
+
+    async def _start(self):
+        self.acceptor = await asyncssh.listen(
+            '127.0.0.1', 2224, server_factory=NoAuthServer,
+            server_host_keys=[NaturalWorld._key], sftp_factory=NaturalServer,
+            sftp_version=6)
+        self.conn = await asyncssh.connect(
+            '127.0.0.1', 2224, known_hosts=None, config=None,
+            client_keys=None, username='u')
+
+    def close(self):
+        try:
+            self.conn.abort()
+            self.acceptor.close()
+            self.loop.run_until_idle()
+        except BaseException:           # pylint: disable=broad-except
+            pass
+        close_loop(self.loop)
+        shutil.rmtree(self.root, ignore_errors=True)
+
+
+_nworld = None
+
+
+def natural_world():
+    global _nworld
+    if _nworld is not None and _nworld.loop.exceptions:
+        drop_natural_world()
+    if _nworld is None:
+        _nworld = NaturalWorld()
+    return _nworld
+
+
+def drop_natural_world():
+    global _nworld
+    if _nworld is not None:
+        _nworld.close()
+        _nworld = None
+
+
+NAT_VARIANTS = ('arg', 'seek', 'argseek', 'all')
+
+
+def natural_cfg(rng, server):
+    """A seeded API call: sizes around block and request-count boundaries"""
+    ops = ['read', 'read', 'write', 'get', 'put'] + \
+        (['copy', 'copy'] if server == 'scripted' else [])
+    op = rng.choice(ops)
+    B = rng.choice([1, 2, 3, 4, 5, 8])
+    M = rng.choice([1, 2, 3, 4, 6])
+    k = rng.randint(0, 6)
+    n = max(0, rng.choice([k * B, k * B + 1, k * B - 1, M * B, M * B + 1,
+                           M * B - 1, rng.randint(0, 40)]))
+    sparse = op in ('get', 'put', 'copy') and rng.random() < 0.35
+    if op == 'read':
+        L = n
+        off0 = rng.choice([0, 0, 1, B, max(0, L - 1), rng.randint(0, L + 2)])
+        size = max(1, rng.choice([L - off0, L - off0 + 2, B + 1, 2 * B,
+                                  rng.randint(1, 40)]))
+        c = dict(op=op, B=B, M=M, off0=off0, size=size, L=L, A=L,
+                 sparse=False, data=list(range(L)))
+    elif op == 'write':
+        c = dict(op=op, B=B, M=M, off0=rng.choice([0, 0, 1, 2]),
+                 size=max(1, n), L=0, A=0, sparse=False, data=[])
+    elif sparse:
+        A = min(n, 24)
+        data = [p for p in range(A) if rng.random() < 0.6]
+        c = dict(op=op, B=B, M=M, off0=0, size=A, L=A, A=A, sparse=True,
+                 data=data)
+    else:
+        A = n
+        L = A if op == 'put' or rng.random() < 0.85 else rng.randint(0, A)
+        c = dict(op=op, B=B, M=M, off0=0, size=A, L=L, A=A, sparse=False,
+                 data=list(range(L)))
+    return c
+
+
+def record_natural(seed, server='scripted', c=None, workdir=None):
+    """One real API call of the real client against a server that answers on
+    its own clock.  server = 'real' (asyncssh's own SFTP server side with a
+    NaturalServer, replies in request order) | 'scripted' (the raw SFTP peer
+    answering each request from its own task after a random delay: replies
+    complete OUT OF ORDER).  Returns dict(trace, l1, args, ...)."""
+    import random
+    from asyncssh import sftp as _sftp
+    rng = random.Random(seed)
+    if c is None:
+        c = natural_cfg(rng, server)
+    op, B, M, off0, size, L, A = (c['op'], c['B'], c['M'], c['off0'],
+                                  c['size'], c['L'], c['A'])
+    sparse = bool(c['sparse'])
+    real_holes = sparse and (server == 'real' or op == 'put')
+    U = 4096 if real_holes else rng.choice([1, 1, 1, 2, 7])
+    if c['op'] == 'read' and off0 < L and off0 + size == L:
+        variant = rng.choice(NAT_VARIANTS)
+    elif c['op'] in ('read', 'write'):
+        variant = rng.choice(NAT_VARIANTS[:3])
+    else:
+        variant = 'arg'
+    version = rng.choice([3, 4, 5, 6])
+    plan = _Plan(rng, U, p_err=rng.choice([0, 0, 0.03, 0.1]),
+                 p_short=rng.choice([0, 0.3, 0.6]),
+                 delays=rng.choice([[0], [0, 0.001, 0.002],
+                                    [0, 0, 0.001, 0.003, 0.01, 0.05]]))
+    plan.announced = A * U if A != L else None
+    res = {'cfg': c, 'U': U, 'variant': variant, 'version': version,
+           'server': server, 'seed': seed, 'l1': [], 'outcome': None,
+           'args': dict(seed=seed, server=server), 'trace': None,
+           'problems': []}
+    src = src_bytes(c, U)
+    table = {unit(p, U): p + 1 for p in range(L)}
+    if op == 'write':
+        table = {unit(i, U, 5): i + 1 for i in range(size)}
+    rec = Recorder(c, U)
+    tmp = tempfile.mkdtemp(prefix='C12natf', dir=workdir or tlc.WORK)
+    script = None
+    want_ranges = [(o * U, n * U) for o, n in runs(set(c['data']), A)]
+    try:
+        # ---- the two file systems ----
+        if op == 'put':
+            lsrc = os.path.join(tmp, 'src')
+            if sparse:
+                make_local_sparse(lsrc, c, U)
+                if local_ranges(lsrc) != want_ranges:
+                    res['skipped'] = 'file system does not report holes'
+                    return res
+            else:
+                with open(lsrc, 'wb') as f:
+                    f.write(src)
+        if server == 'real':
+            w = natural_world()
+            loop = w.loop
+            for n in ('src', 'dst'):
+                try:
+                    os.remove(os.path.join(w.root, n))
+                except FileNotFoundError:
+                    pass
+            if op in ('read', 'get'):
+                p = os.path.join(w.root, 'src')
+                if sparse:
+                    make_local_sparse(p, c, U)
+                    if local_ranges(p) != want_ranges:
+                        res['skipped'] = 'file system does not report holes'
+                        return res
+                else:
+                    with open(p, 'wb') as f:
+                        f.write(src)
+            NaturalServer.plan = plan
+            sftp = loop.run_until_complete(
+                w.conn.start_sftp_client(sftp_version=version))
+            chunk = rng.choice([None, 'any', 'tiny'])
+            for t in (w.ct, w.st):
+                t.chunker = None if chunk is None else \
+                    (lambda avail: rng.randint(1, max(1, avail))) \
+                    if chunk == 'any' else (lambda avail: rng.randint(1, 9))
+        else:
+            w = world()
+            loop = w.loop
+            files, exts = {}, []
+            if op in ('read', 'get', 'copy'):
+                rf = RFile(src, announced=A * U)
+                if sparse:
+                    rf.ranges = want_ranges
+                    exts.append((b'ranges@asyncssh.com', b'1'))
+                files[b'src'] = rf
+            sftp, script = w.session(
+                sftp_version=version, version=version, exts=exts, files=files,
+                ranges_per_reply=rng.choice([1, 128]), natural=plan)
+        got = {}
+
+        async def do_op():
+            other = rng.choice([0, 1, B, L + 3]) * U
+            if op == 'read':
+                f = await sftp.open('src', 'rb', block_size=B * U,
+                                    max_requests=M)
+                try:
+                    rec.start()
+                    if variant in ('arg', 'argseek'):
+                        if variant == 'argseek':
+                            await f.seek(other)
+                        data = await f.read(size * U, off0 * U)
+                    else:
+                        await f.seek(off0 * U)
+                        data = await (f.read(size * U) if variant == 'seek'
+                                      else f.read())
+                    got['pos'] = await f.tell()
+                    return data
+                finally:
+                    await f.close()
+            elif op == 'write':
+                f = await sftp.open('dst', 'wb', block_size=B * U,
+                                    max_requests=M)
+                try:
+                    rec.start()
+                    payload = write_payload(c, U)
+                    if variant in ('arg', 'argseek'):
+                        if variant == 'argseek':
+                            await f.seek(other + U)
+                        n = await f.write(payload, off0 * U)
+                    else:
+                        await f.seek(off0 * U)
+                        n = await f.write(payload)
+                    got['pos'] = await f.tell()
+                    return n
+                finally:
+                    await f.close()
+            rec.start()
+            if op == 'get':
+                await sftp.get('src', os.path.join(tmp, 'dst'), sparse=sparse,
+                               block_size=B * U, max_requests=M)
+            elif op == 'put':
+                await sftp.put(os.path.join(tmp, 'src'), 'dst', sparse=sparse,
+                               block_size=B * U, max_requests=M)
+            else:
+                await sftp.copy('src', 'dst', sparse=sparse,
+                                block_size=B * U, max_requests=M)
+            return None
+
+        rec.instrument(sftp._handler)
+        old = _sftp.asyncio
+        _sftp.asyncio = _AsyncioProxy(rec.batch)
+        value = exc = None
+        try:
+            task = loop.create_task(do_op())
+            try:
+                loop.run_until_complete(asyncio.wait([task]))
+            except BaseException as e:   # pylint: disable=broad-except
+                res['l1'].append(('Hang', f'the call neither returned nor '
+                                  f'raised: {type(e).__name__}'))
+                task.cancel()
+                res['outcome'] = 'hung'
+        finally:
+            _sftp.asyncio = old
+            if server == 'real':
+                for t in (w.ct, w.st):
+                    t.chunker = None
+        if res['outcome'] != 'hung':
+            if task.cancelled():
+                res['outcome'] = 'cancelled'
+                res['l1'].append(('Hang', 'the call was cancelled inside'))
+            elif task.exception() is not None:
+                exc = task.exception()
+                res['outcome'] = 'raised'
+                res['exc'] = f'{type(exc).__name__}: {exc}'
+            else:
+                res['outcome'] = 'returned'
+                value = task.result()
+        loop.run_until_idle()
+        # ---- what the destination holds ----
+        if op == 'get':
+            p = os.path.join(tmp, 'dst')
+            dstb = open(p, 'rb').read() if os.path.exists(p) else None
+        elif op in ('write', 'put', 'copy'):
+            if server == 'real':
+                p = os.path.join(w.root, 'dst')
+                dstb = open(p, 'rb').read() if os.path.exists(p) else None
+            else:
+                dstb = bytes(script.files[b'dst'].content) \
+                    if b'dst' in script.files else None
+        else:
+            dstb = None
+        # ---- L1 monitors (same clauses as the replay) ----
+        res['err_injected'] = rec.err_injected
+        short_src = op in ('get', 'put', 'copy') and not sparse and L < A
+        if res['outcome'] == 'returned':
+            holder = script
+            if op != 'get' and server == 'real':
+                class _H:                # pylint: disable=too-few-public-methods
+                    files = {b'dst': RFile(dstb)} if dstb is not None else {}
+                holder = _H
+            judge_success(res, c, U, op, value, holder, tmp, src, got,
+                          'arg' if variant == 'argseek' else variant)
+            if rec.err_injected:
+                res['l1'].append(('FailLoud', 'a request was answered with '
+                                  'an error status but the call reported '
+                                  'success'))
+            if short_src:
+                res['l1'].append(('ShortSourceFails', f'source ended at '
+                                  f'{L * U} of {A * U} announced bytes but '
+                                  f'the call reported success'))
+        elif res['outcome'] == 'raised' and not (rec.err_injected or
+                                                 short_src):
+            res['l1'].append(('SpuriousFailure', f'no request failed and the '
+                              f'source was complete, but the call raised '
+                              f'{res["exc"]}'))
+        # ---- the trace ----
+        if res['outcome'] in ('returned', 'raised'):
+            if op == 'read':
+                ids = ids_of(value, U, table) \
+                    if isinstance(value, bytes) else [9999]
+            else:
+                ids = ids_of(dstb or b'', U, table)
+            rec.end(res['outcome'] == 'raised', ids)
+            res['trace'] = {'c': c, 'ev': rec.ev}
+        res['problems'] = rec.problems
+        res['nreq'] = rec.nreq
+        res['max_outstanding'] = rec.max_out
+        res['nsteps'] = len(rec.ev)
+        res['loop_exceptions'] = [str(x.get('exception') or x.get('message'))
+                                  for x in loop.exceptions]
+        try:
+            sftp.exit()
+            loop.run_until_idle()
+        except BaseException:           # pylint: disable=broad-except
+            pass
+        if server != 'real':
+            w.scripts.clear()
+            if loop.exceptions:
+                drop_world()
+    finally:
+        shutil.rmtree(tmp, ignore_errors=True)
+    return res
